@@ -194,6 +194,83 @@ type mptSpec struct {
 	minTarget int                                                                      // minimal number of distinct target instructions (floor)
 }
 
+// autoInline makes path rules indifferent to "extract helper" refactorings: a transparent helper (newfn.go: a function
+// that did not exist on the reference tree and has a single call site) that is not itself an event of the rule and whose
+// body (through at most two more levels of static calls) contains an event or a target site of the rule is analysed in
+// place, with its parameters bound to the arguments and its results to the call (path.go maybeInline). The rule's own
+// inline predicate, if any, is honoured as well.
+func (c *ctx) autoInline(s mptSpec, pr *PathRule) func(*ssa.Function) bool {
+	isEventFn := map[*ssa.Function]bool{}
+	for _, fs := range s.events {
+		for _, f := range fs {
+			isEventFn[origin(f)] = true
+		}
+	}
+	interesting := func(in ssa.Instruction) (yes bool) {
+		defer func() {
+			if recover() != nil {
+				yes = false
+			}
+		}()
+		if pr.Event != nil && pr.Event(in) != "" {
+			return true
+		}
+		if _, isRet := in.(*ssa.Return); !isRet && s.target != nil && s.target(in, nil, nil) != "" {
+			return true
+		}
+		return false
+	}
+	memo := map[*ssa.Function]int{} // 0 unknown, 1 yes, 2 no
+	var contains func(f *ssa.Function, depth int) bool
+	contains = func(f *ssa.Function, depth int) bool {
+		f = origin(f)
+		if m := memo[f]; m != 0 {
+			return m == 1
+		}
+		if len(f.Blocks) == 0 || len(f.Blocks) > 120 || !inCanopy(f) || isEventFn[f] {
+			memo[f] = 2
+			return false
+		}
+		memo[f] = 2 // cut recursion
+		found := false
+		for _, b := range f.Blocks {
+			for _, in := range b.Instrs {
+				if interesting(in) {
+					found = true
+				} else if depth > 0 {
+					if call, ok := in.(*ssa.Call); ok {
+						if sc := call.Common().StaticCallee(); sc != nil && sc != f && contains(sc, depth-1) {
+							found = true
+						}
+					}
+				}
+				if found {
+					break
+				}
+			}
+			if found {
+				break
+			}
+		}
+		if found {
+			memo[f] = 1
+		}
+		return found
+	}
+	return func(g *ssa.Function) bool {
+		if s.inline != nil && s.inline(g) {
+			return true
+		}
+		g = origin(g)
+		if g == origin(s.fn) || isEventFn[g] || isTestFile(c.p, g.Pos()) {
+			return false
+		}
+		// only helpers that did not exist on the reference tree (newfn.go): known functions keep the meaning the rules
+		// were written against
+		return c.p.transparentSite(g) != nil && contains(g, 2)
+	}
+}
+
 // mpt runs the spec and records one obligation per target label (plus undecided reasons).
 func (c *ctx) mpt(s mptSpec) *PathResult {
 	if s.fn == nil {
@@ -212,7 +289,8 @@ func (c *ctx) mpt(s mptSpec) *PathResult {
 	if s.extraEv != nil {
 		extra = append(extra, s.extraEv)
 	}
-	pr := &PathRule{Fn: s.fn, Event: evCalls(s.events, extra...), Atom: s.atom, KillAtoms: s.kill, Resets: s.resets, Inline: s.inline, Target: s.target}
+	pr := &PathRule{Fn: s.fn, Event: evCalls(s.events, extra...), Atom: s.atom, KillAtoms: s.kill, Resets: s.resets, Target: s.target}
+	pr.Inline = c.autoInline(s, pr)
 	pr.At = func(label string, in ssa.Instruction, st *PState, e *pathEngine) string {
 		if s.check != nil {
 			return s.check(label, in, st, e)
@@ -534,4 +612,49 @@ func ordMatch(op token.Token, px, py string, want token.Token, x, y func(string)
 		return true, true
 	}
 	return false, false
+}
+
+// ordAtom names an integer comparison "x want y" given predicates on the operand VALUES; every spelling is recognised
+// (operands swapped with the mirrored operator; the complementary operator reported negated).
+func ordAtom(name string, want token.Token, x, y func(ssa.Value) bool) func(v ssa.Value) (string, bool) {
+	return func(v ssa.Value) (string, bool) {
+		b, ok := v.(*ssa.BinOp)
+		if !ok || !isOrdering(b.Op) {
+			return "", false
+		}
+		if m, neg := ordMatchV(b, want, x, y); m {
+			return name, neg
+		}
+		return "", false
+	}
+}
+
+func ordMatchV(b *ssa.BinOp, want token.Token, x, y func(ssa.Value) bool) (bool, bool) {
+	op := b.Op
+	switch {
+	case op == want && x(b.X) && y(b.Y):
+		return true, false
+	case swapOrd(op) == want && x(b.Y) && y(b.X):
+		return true, false
+	case negOrd(op) == want && x(b.X) && y(b.Y):
+		return true, true
+	case swapOrd(negOrd(op)) == want && x(b.Y) && y(b.X):
+		return true, true
+	}
+	return false, false
+}
+
+// firstAtom tries atom functions in order.
+func firstAtom(fs ...func(v ssa.Value) (string, bool)) func(v ssa.Value) (string, bool) {
+	return func(v ssa.Value) (string, bool) {
+		for _, f := range fs {
+			if f == nil {
+				continue
+			}
+			if n, neg := f(v); n != "" {
+				return n, neg
+			}
+		}
+		return "", false
+	}
 }
